@@ -24,3 +24,7 @@ pub fn u32_to_le_bytes(x: u32) -> (r: [u8; 4]) ensures r@ == le32(x) { x.to_le_b
 pub fn u32_from_le_slice(s: &[u8]) -> (r: u32) requires s@.len() == 4 ensures r == un_le32(s@) { u32::from_le_bytes(s.try_into().unwrap()) }
 
 pub assume_specification<T: Clone> [<[T]>::to_vec] (s: &[T]) -> (r: Vec<T>) ensures r@ == s@;
+
+// a slice never has more than isize::MAX elements (Rust language guarantee)
+pub broadcast axiom fn axiom_slice_len_bound(s: &[u8])
+    ensures #[trigger] s@.len() <= isize::MAX;
